@@ -7,10 +7,12 @@ import (
 	"testing"
 
 	"filippo.io/age"
+	"filippo.io/age/agessh"
 	"filippo.io/age/verifh/hx"
 	"filippo.io/age/verifh/pbt"
 	"filippo.io/age/verifh/refage"
 	"filippo.io/age/verifh/stats"
+	"golang.org/x/crypto/ssh"
 	"pgregory.net/rapid"
 )
 
@@ -26,6 +28,9 @@ type c01Case struct {
 	After     []idSpec     `json:"after"`
 	Plan      []int        `json:"plan"`
 	Delivery  hx.Delivery  `json:"delivery"`
+	// EncSSH: ssh-ed25519 recipients 0..2 are opened with their
+	// passphrase-protected key file (a fresh EncryptedSSHIdentity per decryption)
+	EncSSH bool `json:"encSSH"`
 }
 
 func c01Check(c c01Case, st *stats.Run) error {
@@ -85,6 +90,15 @@ func c01Check(c c01Case, st *stats.Run) error {
 			add(fmt.Sprintf("before%d:%s", i, f.Kind), foreignIdentity(p, f, &prompted))
 		}
 		matchID := p.Identity(r)
+		if c.EncSSH && r.Kind == "ed25519" && r.Idx <= 2 {
+			signer, _ := ssh.NewSignerFromKey(p.Ed[r.Idx])
+			eid, eerr := agessh.NewEncryptedSSHIdentity(signer.PublicKey(), p.EdEncPEM[r.Idx], func() ([]byte, error) { return []byte(hx.SSHPassphrase), nil })
+			if eerr != nil {
+				return pbt.Failf("C01/harness", "%v", eerr)
+			}
+			matchID = eid
+			st.Label("match=encrypted-ssh-identity")
+		}
 		if r.Kind == "scrypt" && (c.PlainSeed+uint64(len(c.Before)))%2 == 0 {
 			// the identity's configured maximum is exactly the file's work factor
 			sid, _ := age.NewScryptIdentity(r.Pass)
@@ -223,6 +237,17 @@ func TestC01(t *testing.T) {
 			}
 		}
 		s.St.Exhaust("boundary lengths x {x25519, ssh-ed25519, ssh-rsa, scrypt} x armor on/off", int64(n))
+	}, check)
+	// passphrase-protected SSH identities among other recipients of the same type
+	pbt.Each(s, "roundtrip-grid", func(yield func(c01Case)) {
+		if s.Shard != 0 {
+			return
+		}
+		e := func(i int) hx.RecSpec { return hx.RecSpec{Kind: "ed25519", Idx: i} }
+		for _, recs := range [][]hx.RecSpec{{e(0)}, {e(1), e(0)}, {e(3), e(1), e(2)}, {{Kind: "x25519", Idx: 0}, e(2), {Kind: "rsa", Idx: 0}, e(0)}} {
+			yield(c01Case{PlainLen: 10, PlainSeed: 3, Recs: recs, Plan: []int{4096}, Delivery: hx.Delivery{Mode: "whole"}, EncSSH: true})
+		}
+		s.St.Exhaust("files with several ssh-ed25519 recipients opened by passphrase-protected SSH identities", 4)
 	}, check)
 	// small armored files: every length 0..200 (armor line-boundary residues)
 	pbt.Each(s, "roundtrip-grid", func(yield func(c01Case)) {
